@@ -491,14 +491,159 @@ func TestPropForeignWrite(t *testing.T) {
 	})
 }
 
+// ---- a foreign write inside the window between the dirty check and the compensation ----------
+
+type windowCase struct {
+	Kind      string `json:"kind"`       // window
+	Stmt      string `json:"stmt"`       // update | delete
+	Rows      []int  `json:"rows"`       // ids written by the branch
+	Target    int    `json:"target"`     // id the foreign writer changes
+	OnlyCols  bool   `json:"only_update_columns"`
+}
+
+// runWindow pauses the rollback at its first compensation statement and lets a foreign writer try to
+// change a written row in that window. If the write gets through (it was not blocked by a row lock taken
+// by the dirty check), the rollback must not overwrite it.
+func runWindow(c windowCase) *pt.Failure {
+	return pt.Guard("C09/crash", func() *pt.Failure {
+		env.ResetCase()
+		env.CleanUndo()
+		atenv.UndoConfig("json", "None", true, c.OnlyCols)
+		n := atenv.NextCase()
+		tname := atenv.TableName(n, 0)
+		for _, q := range []string{"CREATE TABLE " + tname + " (id INT PRIMARY KEY, v INT NOT NULL, s VARCHAR(20))", "INSERT INTO " + tname + " VALUES (1,10,'a'),(2,20,'b'),(3,30,'c'),(4,40,'d')"} {
+			if _, err := env.Bare.Exec(q); err != nil {
+				return pt.Failf("C09/harness/setup", "%v", err)
+			}
+		}
+		defer env.DropTables([]string{tname})
+		var ids []string
+		for _, r := range c.Rows {
+			ids = append(ids, fmt.Sprint(r))
+		}
+		q := "UPDATE " + tname + " SET v = v + 1 WHERE id IN (" + strings.Join(ids, ",") + ")"
+		if c.Stmt == "delete" {
+			q = "DELETE FROM " + tname + " WHERE id IN (" + strings.Join(ids, ",") + ")"
+		}
+		var res atenv.BranchResult
+		_, _ = atenv.Global("c09w", func(cx context.Context) error {
+			res = atenv.RunBranch(cx, env.AT, "auto", "db", false, []atenv.StmtText{{SQL: q}})
+			return errBusiness
+		})
+		brs := env.TC.Branches()
+		if res.Failed() || len(brs) != 1 {
+			return pt.Failf("C09/harness/window-setup", "branch statement failed: %+v", res)
+		}
+		mark := env.Srv.Journal()
+		markSeq := int64(0)
+		if len(mark) > 0 {
+			markSeq = mark[len(mark)-1].Seq
+		}
+		hit := make(chan memsql.Entry, 1)
+		release := make(chan struct{})
+		env.Srv.AddPause(&memsql.Pause{Once: true, Hit: hit, Release: release, Match: func(e *memsql.Entry) bool {
+			u := e.Upper()
+			return e.Seq > markSeq && (strings.HasPrefix(u, "UPDATE "+strings.ToUpper(tname)) || strings.HasPrefix(u, "INSERT INTO "+strings.ToUpper(tname)))
+		}})
+		defer env.Srv.ClearFaults()
+		env.Srv.SetLockWait(120 * time.Millisecond)
+		defer env.Srv.SetLockWait(2 * time.Second)
+		done := make(chan string, 1)
+		go func() {
+			st, _ := env.TC.BranchRollback(env.Sess, brs[0], 8*time.Second)
+			done <- fmt.Sprint(st)
+		}()
+		var ferr error
+		reached := false
+		select {
+		case <-hit:
+			reached = true
+			if c.Stmt == "delete" {
+				// the row is gone: the foreign writer re-creates the key with other content
+				_, ferr = env.Bare.Exec("INSERT INTO "+tname+" VALUES (?, 999, 'foreign')", c.Target)
+			} else {
+				_, ferr = env.Bare.Exec("UPDATE "+tname+" SET v = 999 WHERE id = ?", c.Target)
+			}
+			close(release)
+		case st := <-done:
+			done <- st
+		case <-time.After(6 * time.Second):
+			close(release)
+		}
+		status := "timeout"
+		select {
+		case status = <-done:
+		case <-time.After(10 * time.Second):
+		}
+		last = observation{written: len(c.Rows), status: status}
+		if !reached {
+			last.class = "window-not-reached"
+			return nil
+		}
+		if ferr != nil {
+			last.class = "window-blocked" // the dirty check holds the row lock: the foreign writer had to wait
+			return nil
+		}
+		last.class = "window-write-committed"
+		var v int64 = -1
+		for _, r := range env.Srv.Rows(atenv.Schema, tname) {
+			if r["id"] == int64(c.Target) {
+				v, _ = r["v"].(int64)
+			}
+		}
+		if v != 999 {
+			return pt.Failf("C09/foreign-write-overwritten/"+c.Stmt+"/during-rollback", "a foreign writer committed v=999 on row %d between the dirty check and the compensation; the rollback (answer %s) left v=%d\n%s", c.Target, status, v, atenv.Tail(env.Srv.JournalSince(markSeq), 16))
+		}
+		return nil
+	})
+}
+
+var windowRuns int
+
+func TestPropForeignWriteInWindow(t *testing.T) {
+	limit := 40 // each run waits for a lock timeout: bounded by count (C09_WINDOW), not by time
+	if v := os.Getenv("C09_WINDOW"); v != "" {
+		fmt.Sscanf(v, "%d", &limit)
+	}
+	ctx.Check(t, func(rt *rapid.T) {
+		if windowRuns >= limit {
+			return
+		}
+		windowRuns++
+		c := windowCase{Kind: "window", Stmt: rapid.SampledFrom([]string{"update", "update", "delete"}).Draw(rt, "stmt"), OnlyCols: rapid.Bool().Draw(rt, "onlyCols")}
+		nr := rapid.IntRange(1, 3).Draw(rt, "nRows")
+		seen := map[int]bool{}
+		for len(c.Rows) < nr {
+			r := rapid.IntRange(1, 4).Draw(rt, "row")
+			if !seen[r] {
+				seen[r] = true
+				c.Rows = append(c.Rows, r)
+			}
+		}
+		sort.Ints(c.Rows)
+		c.Target = rapid.SampledFrom(c.Rows).Draw(rt, "target")
+		fl := runWindow(c)
+		ctx.Rec.Case("window", last.class != "window-not-reached", fmt.Sprintf("window|%s|%v|%d|%v", c.Stmt, c.Rows, c.Target, c.OnlyCols), c, "foreign:during-rollback", "class:"+last.class)
+		ctx.Judge(rt, "window", fl, c)
+	})
+}
+
 func TestPropReplaySaved(t *testing.T) {
 	ctx.ReplayAll(t, func(v *stats.Violation) *pt.Failure {
-		var c Case
-		if err := json.Unmarshal(v.Case, &c); err != nil {
-			return pt.Failf("C09/replay", "bad case: %v", err)
-		}
-		return runCase(c)
+		return runRaw(v.Case)
 	})
+}
+
+func runRaw(raw json.RawMessage) *pt.Failure {
+	var w windowCase
+	if err := json.Unmarshal(raw, &w); err == nil && w.Kind == "window" {
+		return runWindow(w)
+	}
+	var c Case
+	if err := json.Unmarshal(raw, &c); err != nil {
+		return pt.Failf("C09/replay", "bad case: %v", err)
+	}
+	return runCase(c)
 }
 
 func TestReplay(t *testing.T) {
@@ -508,6 +653,12 @@ func TestReplay(t *testing.T) {
 		t.Skip("no VERIF_REPLAY_FILE")
 	}
 	defer ctx.Rec.Flush()
+	if strings.Contains(string(v.Case), `"kind":"window"`) || strings.Contains(string(v.Case), `"kind": "window"`) {
+		fl := runRaw(v.Case)
+		ctx.Rec.Case("replay", true, string(v.Case), v.Case)
+		ctx.Judge(t, v.Test, fl, v.Case)
+		return
+	}
 	fl := runCase(c)
 	record("replay", c)
 	ctx.Judge(t, v.Test, fl, c)
